@@ -178,8 +178,11 @@ CLAIMS = {
        "is Int iff it parses as i64, else Float iff it parses as f64, else Bool iff it parses as bool, else Null iff it is `~` / `null` "
        "in any case, else String; the typed value is the parser's result, carries the scalar's own location, and exactly one value is "
        "pushed; handle_type_ref - !!bool / !!int / !!float / !!null give the parsed value, an unparsable !!int / !!float is a BadValue "
-       "(rejected), any other tag a String.",
-  note="This is the typing cascade of the validate loader only. NOT covered: what str::parse::<i64|f64|bool> accept (e.g. `inf`, `nan`, "
+       "(rejected), any other tag a String. The other two loaders (serde_yaml / serde_json -> Value, used by `test` and run_checks), number arm, "
+       "with serde's is_i64 / is_u64 / as_* modelled by their contracts over mathematical integers: Int(v) only for an integer that fits "
+       "i64 and with exactly that value, an i64 integer never becomes a Float, no unwrap on None (found: unsigned numbers above i64::MAX "
+       "wrapped to negative Ints; fixed).",
+  note="This is the typing cascade of the validate loader plus the number arm of the serde loaders. NOT covered: what str::parse::<i64|f64|bool> accept (e.g. `inf`, `nan`, "
        "`+1` are accepted by Rust's parsers), agreement with serde_yaml / serde_json used by `test` and the library API, the content "
        "of the short-form intrinsic tables beyond their shape (every short tag maps to an `Fn::`/`Ref` long form, sequence vs single-value "
        "sets disjoint), aliases and non-string keys, key/list order, libyaml itself. No Kani harness serves this property.",
@@ -234,7 +237,8 @@ CLAIMS = {
        "per case in a fresh scope built from the rules file and the case's input; a rule without a stated expectation is counted neither "
        "as met nor as failed; met -> PASS group, else FAIL group), get_by_rules' fold step (a RuleCheck record is appended to the group of its own name, other "
        "records change nothing) and StructuredTestReporter::evaluate (fresh scope per case; no expectation -> skipped_rules only; "
-       "get_status_result(expected, this rule's records) decides passed_rules / failed_rules with the right statuses).",
+       "get_status_result(expected, this rule's records) decides passed_rules / failed_rules with the right statuses); the number arm of the "
+       "serde_yaml / serde_json loaders that feed `test` (Int only with the exact i64 value - see C11).",
   note="NOT covered: that `test` and `validate` compute the same statuses (two loaders + the evaluator), `--dir` mode, the rendering of "
        "the four output formats.",
   design="4/C16"),
